@@ -146,8 +146,12 @@ def judge(family, case, rec):
                     rec.violation("C11:%s-earlier-result-changed-by-later-call" % gname, family, case,
                                   "the matrix / ordering returned for random_state=%r changed after later calls (p=%d)" % (rs0, p))
                 # the caller overwrites what he was given; the same seeded call must still return the same graph
-                W0[...] = 123.0
-                o0[...] = 0
+                if isinstance(W0, np.ndarray) and W0.flags.writeable:
+                    W0[...] = 123.0
+                if isinstance(o0, np.ndarray) and o0.flags.writeable:
+                    o0[...] = 0
+                elif isinstance(o0, list):          # an ordering returned as a list is as good as an array
+                    o0[:] = [0] * len(o0)
                 try:
                     W1, o1 = fn(*((p, k) if gname == "dag_avg_deg" else (p,)), w_min=wr[0], w_max=wr[1], return_ordering=True, random_state=rs0)
                     if not (np.array_equal(W1, Wc) and np.array_equal(o1, oc)):
